@@ -1,0 +1,219 @@
+//! Verification hooks (cargo feature `verif`, off by default).
+//!
+//! Offers an in-memory entry point to the real interpreter and a monitor
+//! callback that is invoked before every instruction of the real
+//! fetch-execute loop. Nothing in here changes the behavior of the interpreter.
+
+use std::cell::RefCell;
+use std::collections::HashMap;
+use std::io::{Cursor, Write};
+use std::rc::Rc;
+
+use rusty_parser::UserDefinedTypes;
+use rusty_variant::Variant;
+
+use crate::RuntimeError;
+use crate::RuntimeErrorPos;
+use crate::instruction_generator::{Instruction, InstructionGeneratorResult};
+use crate::interpreter::Stdlib;
+pub use crate::interpreter::context::Context;
+use crate::interpreter::interpreter_trait::InterpreterTrait;
+use crate::interpreter::lpt1_write::Lpt1Write;
+use crate::interpreter::main::Interpreter;
+use crate::interpreter::read_input::ReadInputSource;
+use crate::interpreter::screen::Screen;
+use crate::interpreter::write_printer::WritePrinter;
+
+/// The sizes of the stacks of the VM.
+#[derive(Clone, Debug, Default, PartialEq, Eq)]
+pub struct Depths {
+    pub value_stack: usize,
+    pub register_stack: usize,
+    pub var_path_stack: usize,
+    pub by_ref_stack: usize,
+    pub return_address_stack: usize,
+    pub go_sub_address_stack: usize,
+    pub stacktrace: usize,
+    pub states: usize,
+    pub memory_blocks: usize,
+}
+
+/// The state of the error handling of the VM.
+#[derive(Clone, Debug, Default, PartialEq, Eq)]
+pub struct ErrorState {
+    /// The code of the most recent error (what `ERR` returns).
+    pub last_error_code: Option<i32>,
+    /// The address of the instruction that failed, while an `ON ERROR GOTO` handler is running.
+    pub last_error_address: Option<usize>,
+}
+
+/// Observes the execution of a program.
+pub trait Monitor {
+    /// Called before the instruction at the given address is executed.
+    /// Returns `true` to stop the execution.
+    fn on_instruction(
+        &mut self,
+        address: usize,
+        instruction: &Instruction,
+        depths: &Depths,
+        a: &Variant,
+        error_state: &ErrorState,
+        context: &Context,
+    ) -> bool;
+
+    /// Called when the execution ends (normally or with an error, but not if it was stopped).
+    fn on_end(&mut self, _depths: &Depths, _a: &Variant, _context: &Context) {}
+}
+
+/// A snapshot of one memory block of the context.
+pub struct BlockSnapshot<'a> {
+    pub ref_count: usize,
+    pub is_static: bool,
+    pub variables: Vec<(&'a rusty_parser::Name, &'a Variant)>,
+}
+
+/// A byte buffer that is also accessible from outside the interpreter.
+#[derive(Clone, Default)]
+pub struct SharedBuf(pub Rc<RefCell<Vec<u8>>>);
+
+impl Write for SharedBuf {
+    fn write(&mut self, buf: &[u8]) -> std::io::Result<usize> {
+        self.0.borrow_mut().extend_from_slice(buf);
+        Ok(buf.len())
+    }
+
+    fn flush(&mut self) -> std::io::Result<()> {
+        Ok(())
+    }
+}
+
+pub enum Lpt1 {
+    Buffer(SharedBuf),
+    /// The device the real binary uses.
+    Shipped(Lpt1Write),
+}
+
+impl Write for Lpt1 {
+    fn write(&mut self, buf: &[u8]) -> std::io::Result<usize> {
+        match self {
+            Self::Buffer(b) => b.write(buf),
+            Self::Shipped(s) => s.write(buf),
+        }
+    }
+
+    fn flush(&mut self) -> std::io::Result<()> {
+        match self {
+            Self::Buffer(b) => b.flush(),
+            Self::Shipped(s) => s.flush(),
+        }
+    }
+}
+
+#[derive(Default)]
+pub struct MapStdlib {
+    pub env: HashMap<String, String>,
+}
+
+impl Stdlib for MapStdlib {
+    fn system(&self) {}
+
+    fn get_env_var(&self, name: &str) -> String {
+        self.env.get(name).cloned().unwrap_or_default()
+    }
+
+    fn set_env_var(&mut self, name: String, value: String) {
+        self.env.insert(name, value);
+    }
+}
+
+pub struct NullScreen {
+    view_print: Option<(usize, usize)>,
+}
+
+impl Screen for NullScreen {
+    fn cls(&self) -> Result<(), RuntimeError> {
+        Ok(())
+    }
+
+    fn background_color(&self, _color: i32) -> Result<(), RuntimeError> {
+        Ok(())
+    }
+
+    fn foreground_color(&self, _color: i32) -> Result<(), RuntimeError> {
+        Ok(())
+    }
+
+    fn move_to(&self, _row: u16, _col: u16) -> Result<(), RuntimeError> {
+        Ok(())
+    }
+
+    fn show_cursor(&self) -> Result<(), RuntimeError> {
+        Ok(())
+    }
+
+    fn hide_cursor(&self) -> Result<(), RuntimeError> {
+        Ok(())
+    }
+
+    fn get_view_print(&self) -> Option<(usize, usize)> {
+        self.view_print
+    }
+
+    fn set_view_print(&mut self, start_row: usize, end_row: usize) {
+        self.view_print = Some((start_row, end_row));
+    }
+
+    fn reset_view_print(&mut self) {
+        self.view_print = None;
+    }
+}
+
+pub struct Options {
+    pub stdin: Vec<u8>,
+    pub stdout: SharedBuf,
+    pub lpt1: SharedBuf,
+    pub shipped_lpt1: bool,
+    pub env: HashMap<String, String>,
+}
+
+pub struct Report {
+    pub result: Result<(), RuntimeErrorPos>,
+    /// True if the monitor stopped the execution.
+    pub stopped: bool,
+}
+
+/// Runs the instructions with the real interpreter over in-memory devices.
+pub fn run(
+    instruction_generator_result: InstructionGeneratorResult,
+    user_defined_types: UserDefinedTypes,
+    options: Options,
+    monitor: Option<Box<dyn Monitor>>,
+) -> Report {
+    let Options {
+        stdin,
+        stdout,
+        lpt1,
+        shipped_lpt1,
+        env,
+    } = options;
+    let lpt1 = if shipped_lpt1 {
+        Lpt1::Shipped(Lpt1Write {})
+    } else {
+        Lpt1::Buffer(lpt1)
+    };
+    let mut interpreter = Interpreter::new(
+        MapStdlib { env },
+        ReadInputSource::new(Cursor::new(stdin)),
+        WritePrinter::new(stdout),
+        WritePrinter::new(lpt1),
+        NullScreen { view_print: None },
+        user_defined_types,
+    );
+    interpreter.verif_set_monitor(monitor);
+    let result = interpreter.interpret(instruction_generator_result);
+    let stopped = interpreter.verif_stopped();
+    if !stopped {
+        interpreter.verif_end();
+    }
+    Report { result, stopped }
+}
